@@ -93,7 +93,7 @@ STD_GROUPS = {"srgb": ["xyz", "lab", "srgb", "linsrgb", "adobe", "linadobe", "p3
                        "hsl_p3", "hwb_rec2020", "hsv", "hsl", "hwb",      # each hexcone form in two RGB standards ...
                        "hsv_linsrgb", "hsl_linsrgb", "hwb_rec709"],         # ... and in two standards that share their primaries
               "prophoto": ["xyz50", "lab50", "lch50", "luv50", "prophoto", "linprophoto", "hsv_prophoto"],
-              "dcip3": ["xyzdci", "labdci", "dcip3", "lindcip3"]}
+              "dcip3": ["xyzdci", "labdci", "dcip3", "lindcip3", "dcip3plus", "lindcip3plus"]}
 
 
 def gen_std(ctx, path):
@@ -116,7 +116,7 @@ def gen_std(ctx, path):
                         pre = [] if A == root else [A]
                         c.add(op="tri", **{"from": root, "in": s, "p1": pre + [B], "p2": pre + [via, B]})
         # colours of the widest gamut of the group that the others can only write with negative components
-        wide = {"srgb": "linrec2020", "prophoto": "linprophoto", "dcip3": "lindcip3"}[root]
+        wide = {"srgb": "linrec2020", "prophoto": "linprophoto", "dcip3": "lindcip3plus"}[root]
         rgbs = [n for n in group if not any(n.startswith(p) for p in ("xyz", "lab", "lch", "luv", "hs", "hw"))]
         for s in [(0.02, 0.95, 0.05), (0.95, 0.03, 0.04), (0.03, 0.05, 0.9), (0.9, 0.9, 0.02)]:
             for B in rgbs + [group[0], group[1]]:
